@@ -28,13 +28,16 @@ contract(f"{RR}::RoundRobinScheduler.__init__",
                   "forall(range(0, len(args[0])), lambda i: self.samplers[i] is args[0][i])"],
          modifies=["self.*"])
 
+# (C11 owns the two obligations that keep the scheduler in step with the calibrator across a FAILED batch: designating the
+#  next sampler does not move the position, only the update after a completed batch does)
 contract(f"{RR}::RoundRobinScheduler.get_next_sampler", params={}, returns="opaque:BaseSampler", props=["C09"],
+         prop_groups={"C11": r"/M/frame"},
          ensures=["result is self.samplers[self._batch_id % len(self.samplers)]"],
          modifies=[])
 
 contract(f"{RR}::RoundRobinScheduler.update",
          params={"batch_id": "int", "new_params": "any", "new_losses": "any", "new_simulated_data": "any"},
-         props=["C09"],
+         props=["C09"], prop_groups={"C11": r"/F/post#0"},
          ensures=["self._batch_id == old(self._batch_id) + 1"],
          modifies=["self._batch_id"])
 
